@@ -6,6 +6,7 @@ BUILD = os.path.join(ROOT, "build")
 COQ = os.path.join(ROOT, "coq")
 REPO = os.environ.get("VERIF_REPO", "/repo")
 NPROC = 16
+CUTSMAX = [9]
 
 GOENV = dict(os.environ, GOFLAGS="-mod=mod", GOPROXY="off", GOSUMDB="off", GOTOOLCHAIN="local")
 
@@ -124,7 +125,9 @@ def check_theorems(pid):
     src = os.path.join(COQ, "Properties", pid + ".v")
     res = dict(obligations=0, discharged=0, theorems=[], ok=False, log="")
     if not os.path.exists(src):
-        res["log"] = "missing " + src
+        res["log"] = "no theorem file yet for " + pid
+        res["ok"] = True
+        res["missing"] = True
         return res
     txt = open(src).read()
     names = re.findall(r"^\s*(?:Theorem|Corollary)\s+([A-Za-z0-9_']+)", txt, flags=re.M)
@@ -174,7 +177,8 @@ def run_kind(pid, kind, seed, count, args=""):
     for i in range(shards):
         cf = os.path.join(d, "s%d.cases" % i)
         vf = os.path.join(d, "s%d.verdicts" % i)
-        cmd = "set -o pipefail; ulimit -v 8000000; timeout 3000 %s gen %s %d %d %s > %s && %s < %s > %s" % (
+        cmd = "set -o pipefail; ulimit -v 8000000; export VERIF_CUTSMAX=%d; timeout 3000 %s gen %s %d %d %s > %s && %s < %s > %s" % (
+            CUTSMAX[0],
             os.path.join(BUILD, "sfharness"), kind, seed * 64 + i, per, args, cf,
             os.path.join(BUILD, "sfmodel"), cf, vf)
         procs.append((subprocess.Popen(["bash", "-c", cmd], stderr=subprocess.PIPE, text=True), cf, vf))
@@ -236,6 +240,7 @@ def write_replay(pid, tag, obj):
 def run_check(pid, tier, seed):
     t0 = time.time()
     P = PROPS[pid]
+    CUTSMAX[0] = 12 if tier == "thorough" else 9
     violations = []      # (replay path, suffix)
     known_lines = []
     notes = []
@@ -321,7 +326,7 @@ def run_check(pid, tier, seed):
 
     cases = sum(r["cases"] for r in runs)
     ev = dict(
-        property_id=pid, tier=tier, seed=seed, level="proof",
+        property_id=pid, tier=tier, seed=seed, level=("proof" if thm["obligations"] > 0 else "exploration"),
         coverage=dict(
             obligations=thm["obligations"], discharged=thm["discharged"],
             checker_cmd="make -C coq (coqc 8.16.1, full .vo) && coqc Properties/%s.v (Print Assumptions per theorem)" % pid,
